@@ -89,6 +89,64 @@ CHECKS = {
              "state deduplication; every decision is compared with a sliding-window reference over the admitted history (with leniency exactly at "
              "one interval), and deque sizes are bounded by the configured rates.",
         note="real RateLimiter from /repo; perf_counter replaced by the harness clock; web.py's call sites are covered by C13/C19 scenarios"),
+    "C05": dict(
+        level="model_checking", design_ref="DESIGN.md section 4 C05, section 2.1, Appendix A",
+        technique="stateless deviation-bounded schedule exploration of the real handler on a controlled event loop + exhaustive live-vs-stored table",
+        text="Eight fan-out scenarios (two or three connections; subscribe during a notification round, replace/CLOSE/disconnect between accept and "
+             "push, duplicate submission, ephemeral kind, stalled subscriber) are executed on the real start_client/storage code under every "
+             "schedule with at most 1 (quick) / 2 (thorough) deviations from the default; an interval-semantics oracle judges only surely-open and "
+             "surely-closed subscriptions. Separately every (event, single filter) pair of the QUERY language is checked for live == stored matching.",
+        note=STORE_NOTE + "; scheduling points: loop-iteration boundaries for socket events and timers, between any two handles for thread completions"),
+    "C07": dict(
+        level="fault_enumeration", design_ref="DESIGN.md section 4 C07, sections 2.3-2.4",
+        technique="exhaustive fault and crash-point enumeration over the mutation log of every explored transition",
+        text="For every distinct (store, event) transition of a STORE BFS and for delete_event, every engine mutation index gets an injected engine "
+             "error and a process kill (plus the point right after commit); after an error the store must equal the state before and a follow-up "
+             "event must be applied, after kill+reopen it must equal the state before or after (after, once committed) with consistent tag rows / "
+             "index entries, and nothing may have been pushed that is not stored.",
+        note=STORE_NOTE + "; atomic commit and recovery of SQLite (WAL) and LMDB themselves are trusted; kills happen at mutation boundaries"),
+    "C13": dict(
+        level="model_checking", design_ref="DESIGN.md section 4 C13",
+        technique="bounded-exhaustive command sequences against a registry model + deviation-bounded schedule exploration with a stalled sender",
+        text="All command sequences up to depth 3 (quick) / 4 (thorough) over an 18-letter alphabet on one connection with subscription_limit=2 are "
+             "run on the real handler and compared with a protocol model (EOSE/NOTICE, replacement, limit, pushes only to open subscriptions, "
+             "registry size); five race scenarios (CLOSE / same-id REQ / disconnect vs. query and sender tasks) are explored under all schedules "
+             "with <= 1 / 2 deviations.",
+        note=STORE_NOTE),
+    "C14": dict(
+        level="model_checking", design_ref="DESIGN.md section 4 C14",
+        technique="full-matrix enumeration of role configurations x token roles x actions x delivery paths on the real handler",
+        text="Every save-roles x query-roles configuration over {a,r,w}, every token role set obtained through real AUTH handshakes, both actions, "
+             "stored and live delivery, three output-validator settings, both backends; plus every sequence of up to three role assignments read back.",
+        note=STORE_NOTE),
+    "C15": dict(
+        level="model_checking", design_ref="DESIGN.md section 4 C15",
+        technique="exhaustive neighbourhood of a valid AUTH payload x pre-identity + bounded-exhaustive attempt sequences on two connections",
+        text="51 AUTH payload variants (every field and tag, challenges of other/earlier connections, relay URL variants incl. substrings, timestamps at "
+             "and around both bounds, malformed shapes) from pre-identity none and authenticated, with relay_urls as list and as the string default, "
+             "and all sequences of <= 3 attempts alternating between two connections; identity is observed only through behaviour.",
+        note=STORE_NOTE + "; the entropy of the `secrets` module is not decidable by enumeration: only 'one fresh 128-bit draw per connection' is checked"),
+    "C16": dict(
+        level="model_checking", design_ref="DESIGN.md section 4 C16, section 2.5",
+        technique="exhaustive validator-pipeline x boundary-event enumeration + exhaustive thread-interleaving exploration (settrace scheduler) of the list refresh race",
+        text="Every ordered pipeline of up to three of the ten validators x 30 boundary events through the real add_event on both backends, all 257 "
+             "leading-zero-bit counts x 6 thresholds, missing-configuration cases, ListBuilder.run_once over all small result shapes, and every "
+             "interleaving (<= 2 preemptions, line and opcode granularity) of the real run_once with the real is_pubkey_allowed.",
+        note=STORE_NOTE + "; reference bounds are written from the docstrings, independent of validators.py"),
+    "C19": dict(
+        level="model_checking", design_ref="DESIGN.md section 4 C19",
+        technique="grammar-exhaustive hostile frames on the real handler (default schedule) + all 1-deviation schedules for a subset, differential against the run without the hostile frame",
+        text="Every JSON type at every position of the four commands, of the event object and of the filter object, invalid / huge / deeply nested "
+             "texts, embedded between probes, twice, and before a disconnect, with a second well-behaved connection; nothing may escape the handler, "
+             "probes must still be answered or the connection be closed without leftovers, and connection 2's transcript must equal the baseline.",
+        note=STORE_NOTE),
+    "C20": dict(
+        level="model_checking", design_ref="DESIGN.md section 4 C20",
+        technique="exhaustive enumeration of stream cut placements (<= k cuts over all pipes) and service orders over in-memory pipes driving the real notifier code",
+        text="The real NotifyServer.handle_notify / NotifyClient.connect run over asyncio.StreamReader pipes whose chunking is chosen by the "
+             "enumerator: all placements of <= 2 (quick) / 3 (thorough) cut points over all pipes of five scenarios (coalesced ids, spaced ids, both "
+             "directions, three workers, peer leaving mid-stream) x two service orders.",
+        note="real notifier.py from /repo; TCP = reliable ordered pipes with arbitrary chunking; worker storages are stubs over a shared event table"),
     "C17": dict(
         level="model_checking", design_ref="DESIGN.md section 4 C17",
         technique="exhaustive subset enumeration of a boundary universe x one real GC transition under an injected clock",
